@@ -87,7 +87,9 @@ func genC18(cfg Config, ws *WorldSet, accepted []int, i int) C18Case {
 	}
 	// the -out name varies too: the log path is derived from it
 	linkOut := false
-	outName := sim.Pick(r, []string{"zz_custom.go", "zz_dialog.go", "out.gen.go", "zz.out.go", "logo.go", "generated_code.go"})
+	outName := sim.Pick(r, []string{"zz_custom.go", "zz_dialog.go", "out.gen.go", "zz.out.go", "logo.go", "generated_code.go",
+		// a legitimate name a few bytes short of NAME_MAX (the log's name is one byte longer)
+		"zz_" + strings.Repeat("long", 60) + ".go"})
 	switch c18Outs[ok] {
 	case "same-dir":
 		if canRel && r.Bool() {
